@@ -29,3 +29,15 @@ theorem window_cover (n k j : Nat) (hk : 1 ≤ k) (hj : j < n) :
   by_cases h : j < k
   · exact ⟨j, h, le_refl _, Nat.le_add_right _ _⟩
   · refine ⟨k - 1, by omega, by omega, by omega⟩
+
+open Finset in
+/-- C16: double counting. Every record `e` of a finite family is filed once under the end `a e` and once under the end `b e`
+    (a record with `a e = b e` twice under that end); then the sizes of all collections add up to twice the number of records:
+    n_dovetails, n_containments and n_internals halve that sum. -/
+theorem collections_sum_twice {V E : Type} [Fintype V] [Fintype E] [DecidableEq V] (a b : E → V) :
+    ∑ v : V, ((univ.filter (fun e => a e = v)).card + (univ.filter (fun e => b e = v)).card) = 2 * Fintype.card E := by
+  rw [sum_add_distrib]
+  have ha := card_eq_sum_card_fiberwise (s := (univ : Finset E)) (t := (univ : Finset V)) (f := a) (fun x _ => mem_univ _)
+  have hb := card_eq_sum_card_fiberwise (s := (univ : Finset E)) (t := (univ : Finset V)) (f := b) (fun x _ => mem_univ _)
+  rw [← ha, ← hb, card_univ]
+  ring
